@@ -54,6 +54,7 @@ func genC05Sim(t *rapid.T) *Case {
 		c.Yields = append(c.Yields, Yield{Point: "receiver.dequeue.beforeCredit", Nth: rapid.IntRange(0, 20).Draw(t, "yield.nth"), Repeat: rapid.IntRange(1, 5).Draw(t, "yield.repeat"),
 			Kind: rapid.SampledFrom([]string{"gosched", "park", "park"}).Draw(t, "yield.kind")})
 	}
+	c.Cfg.DrainEvery = rapid.SampledFrom([]int{0, 7, 13, 29}).Draw(t, "drain_every")
 	c.Tape = genTape(t, 0, 500)
 	return c
 }
